@@ -1,3 +1,483 @@
-/* placeholder, replaced when the mode is implemented */
+/*
+ * m_event.c - C01: histories of schedule / cancel / reschedule / reprioritise /
+ * pattern ops / clear / execute on the real event queue, issued from outside
+ * the dispatcher and from inside running event actions (nested bodies), checked
+ * against a reference model: a plain array of pending events, next to run =
+ * minimum by (time ascending, priority descending, handle ascending).
+ */
+#include <inttypes.h>
+#include <math.h>
+#include <stdarg.h>
+#include <stdbool.h>
+#include <stdlib.h>
+#include <string.h>
+
+#include "cmb_event.h"
+#include "cmb_logger.h"
+
 #include "cimx.h"
-int mode_event(char *text, FILE *trace) { (void)text; fprintf(trace, "F mode event not implemented\n"); return CIMX_PARSE_ERROR; }
+#include "m_event.h"
+
+struct mev {                 /* one issued event */
+    uint64_t handle;
+    double time;
+    int64_t prio;
+    unsigned act;
+    void *subj, *obj;
+    int body_start;          /* index of first op after the sched op */
+    unsigned body_depth;
+    bool pending;
+    int ran;
+    bool cancelled;
+};
+
+static const struct ev_case *cur_case;
+static FILE *cur_trace;
+static struct mev *evs;
+static int nevs, capevs;
+static bool failed;
+static int actions_run;
+static double prev_clock;
+static uint64_t model_current;
+static unsigned cls_tie_time, cls_tie_tp, cls_nested, cls_growth, cls_multipat, cls_skipped,
+                cls_nested_mut, cls_maxpending, cls_bigprio, cls_inf;
+static uint64_t unique_counter;
+static uint64_t queue_cap;
+
+static void fail(const int opidx, const char *fmt, ...) __attribute__((format(printf, 2, 3)));
+static void fail(const int opidx, const char *fmt, ...)
+{
+    if (failed) return;
+    failed = true;
+    va_list ap;
+    va_start(ap, fmt);
+    fprintf(cur_trace, "F op#%d: ", opidx);
+    vfprintf(cur_trace, fmt, ap);
+    fprintf(cur_trace, "\n");
+    va_end(ap);
+}
+
+static void act0(void *s, void *o);
+static void act1(void *s, void *o);
+static void act2(void *s, void *o);
+static cmb_event_func *const acts[EV_NACT] = { act0, act1, act2 };
+
+static void *val(const unsigned idx) { return (void *)(uintptr_t)idx; }
+
+static int npending(void)
+{
+    int n = 0;
+    for (int k = 0; k < nevs; k++) if (evs[k].pending) n++;
+    return n;
+}
+
+/* The specified order: does a run before b? */
+static bool runs_before(const struct mev *a, const struct mev *b)
+{
+    if (a->time != b->time) return a->time < b->time;
+    if (a->prio != b->prio) return a->prio > b->prio;
+    return a->handle < b->handle;
+}
+
+static int model_next(void)
+{
+    int best = -1;
+    for (int k = 0; k < nevs; k++) {
+        if (evs[k].pending && (best < 0 || runs_before(&evs[k], &evs[best]))) best = k;
+    }
+    return best;
+}
+
+static bool matches(const struct mev *e, const struct ev_op *o)
+{
+    if (o->act != EV_WILD && o->act != e->act) return false;
+    if (o->subj != EV_WILD && val(o->subj) != e->subj) return false;
+    if (o->obj != EV_WILD && val(o->obj) != e->obj) return false;
+    return true;
+}
+
+static void cross_check(const int opidx)
+{
+    if (failed) return;
+    const int np = npending();
+    if ((unsigned)np > cls_maxpending) cls_maxpending = (unsigned)np;
+    if (cmb_event_queue_count() != (uint64_t)np) {
+        fail(opidx, "queue_count %" PRIu64 " model %d", cmb_event_queue_count(), np);
+        return;
+    }
+    if (cmb_event_queue_is_empty() != (np == 0)) { fail(opidx, "queue_is_empty disagrees"); return; }
+    if (cmb_event_current() != model_current) {
+        fail(opidx, "event_current %" PRIu64 " model %" PRIu64, cmb_event_current(), model_current);
+        return;
+    }
+    for (int k = 0; k < nevs; k++) {
+        const struct mev *e = &evs[k];
+        const bool is = cmb_event_is_scheduled(e->handle);
+        if (is != e->pending) {
+            fail(opidx, "is_scheduled(%" PRIu64 ")=%d model %d", e->handle, is, e->pending);
+            return;
+        }
+        if (is) {
+            const double t = cmb_event_time(e->handle);
+            const int64_t p = cmb_event_priority(e->handle);
+            if (!(t == e->time) || p != e->prio) {
+                fail(opidx, "event %" PRIu64 " time/priority %a/%" PRIi64 " model %a/%" PRIi64,
+                     e->handle, t, p, e->time, e->prio);
+                return;
+            }
+        }
+    }
+    /* handles never issued are not scheduled */
+    const uint64_t bogus = (uint64_t)nevs + 1000u;
+    if (cmb_event_is_scheduled(bogus)) fail(opidx, "is_scheduled(never issued handle) is true");
+}
+
+static void run_body(int start, unsigned depth);
+
+static void do_op(const int j, const bool toplevel)
+{
+    const struct ev_op *o = &cur_case->ops[j];
+    switch (o->op) {
+    case EV_SCHED: {
+        if (nevs == capevs) {
+            capevs = capevs ? capevs * 2 : 256;
+            evs = realloc(evs, (size_t)capevs * sizeof *evs);
+        }
+        struct mev *e = &evs[nevs];
+        memset(e, 0, sizeof *e);
+        e->time = cmb_time() + o->dt;
+        e->prio = o->prio;
+        e->act = o->act % EV_NACT;
+        e->subj = val(o->subj % EV_NVAL);
+        e->obj = (o->obj == EV_UNIQUE) ? (void *)(uintptr_t)(1000u + (++unique_counter))
+                                       : val(o->obj % EV_NVAL);
+        e->body_start = j + 1;
+        e->body_depth = o->depth + 1u;
+        if (isinf(e->time)) cls_inf++;
+        if (e->prio == INT64_MIN || e->prio == INT64_MAX) cls_bigprio++;
+        for (int k = 0; k < nevs; k++) {
+            if (evs[k].pending && evs[k].time == e->time) {
+                cls_tie_time++;
+                if (evs[k].prio == e->prio) cls_tie_tp++;
+                break;
+            }
+        }
+        const uint64_t before = cmb_event_queue_count();
+        e->handle = cmb_event_schedule(acts[e->act], e->subj, e->obj, e->time, e->prio);
+        if (e->handle == 0) { fail(j, "schedule returned handle 0"); return; }
+        for (int k = 0; k < nevs; k++) {
+            if (evs[k].handle == e->handle) { fail(j, "schedule reissued handle %" PRIu64, e->handle); return; }
+        }
+        e->pending = true;
+        nevs++;
+        /* classification: the queue starts with 8 slots and doubles when full */
+        if (before == queue_cap) { cls_growth++; queue_cap *= 2u; }
+        if (!toplevel) cls_nested_mut++;
+        break;
+    }
+    case EV_CANCEL: {
+        uint64_t h;
+        struct mev *e = NULL;
+        if (o->ref >= 1000000u || nevs == 0) {
+            h = (uint64_t)nevs + 5000u + o->ref;        /* never issued */
+        }
+        else {
+            e = &evs[o->ref % (unsigned)nevs];
+            h = e->handle;
+        }
+        const bool r = cmb_event_cancel(h);
+        const bool want = (e != NULL && e->pending);
+        if (r != want) { fail(j, "cancel(%" PRIu64 ") returned %d model %d", h, r, want); return; }
+        if (want) { e->pending = false; e->cancelled = true; if (!toplevel) cls_nested_mut++; }
+        break;
+    }
+    case EV_RESCHED: case EV_REPRIO: {
+        if (nevs == 0) { cls_skipped++; break; }
+        struct mev *e = &evs[o->ref % (unsigned)nevs];
+        if (!e->pending) { cls_skipped++; break; }          /* documented precondition */
+        if (o->op == EV_RESCHED) {
+            const double t = cmb_time() + o->dt;
+            cmb_event_reschedule(e->handle, t);
+            e->time = t;
+        }
+        else {
+            cmb_event_reprioritize(e->handle, o->prio);
+            e->prio = o->prio;
+        }
+        if (!toplevel) cls_nested_mut++;
+        break;
+    }
+    case EV_PFIND: case EV_PCOUNT: case EV_PCANCEL: {
+        cmb_event_func *a = (o->act == EV_WILD) ? CMB_ANY_ACTION : acts[o->act % EV_NACT];
+        const void *s = (o->subj == EV_WILD) ? CMB_ANY_SUBJECT : val(o->subj % EV_NVAL);
+        const void *ob = (o->obj == EV_WILD) ? CMB_ANY_OBJECT : val(o->obj % EV_NVAL);
+        struct ev_op norm = *o;
+        if (norm.act != EV_WILD) norm.act %= EV_NACT;
+        if (norm.subj != EV_WILD) norm.subj %= EV_NVAL;
+        if (norm.obj != EV_WILD) norm.obj %= EV_NVAL;
+        int cnt = 0;
+        for (int k = 0; k < nevs; k++) if (evs[k].pending && matches(&evs[k], &norm)) cnt++;
+        if (cnt >= 2) cls_multipat++;
+        if (o->op == EV_PCOUNT) {
+            const uint64_t r = cmb_event_pattern_count(a, s, ob);
+            if (r != (uint64_t)cnt) { fail(j, "pattern_count %" PRIu64 " model %d", r, cnt); return; }
+        }
+        else if (o->op == EV_PFIND) {
+            const uint64_t r = cmb_event_pattern_find(a, s, ob);
+            if (cnt == 0) {
+                if (r != 0) { fail(j, "pattern_find returned %" PRIu64 " but nothing matches", r); return; }
+            }
+            else {
+                bool good = false;
+                for (int k = 0; k < nevs; k++) {
+                    if (evs[k].handle == r && evs[k].pending && matches(&evs[k], &norm)) good = true;
+                }
+                if (!good) { fail(j, "pattern_find returned %" PRIu64 " which is not a pending match", r); return; }
+            }
+        }
+        else {
+            const uint64_t r = cmb_event_pattern_cancel(a, s, ob);
+            if (r != (uint64_t)cnt) { fail(j, "pattern_cancel %" PRIu64 " model %d", r, cnt); return; }
+            for (int k = 0; k < nevs; k++) {
+                if (evs[k].pending && matches(&evs[k], &norm)) { evs[k].pending = false; evs[k].cancelled = true; }
+            }
+            if (!toplevel && cnt > 0) cls_nested_mut++;
+        }
+        break;
+    }
+    case EV_CLEAR:
+        cmb_event_queue_clear();
+        for (int k = 0; k < nevs; k++) if (evs[k].pending) { evs[k].pending = false; evs[k].cancelled = true; }
+        if (!toplevel) cls_nested_mut++;
+        break;
+    case EV_EXEC:
+        if (!toplevel) break;
+        for (unsigned r = 0; r < o->count && !failed; r++) {
+            const int before = actions_run;
+            const bool want = (npending() > 0);
+            const bool got = cmb_event_execute_next();
+            if (failed) return;
+            if (got != want) { fail(j, "execute_next returned %d, model has %d pending", got, npending()); return; }
+            if (got && actions_run != before + 1) { fail(j, "execute_next ran %d actions", actions_run - before); return; }
+            cross_check(j);
+        }
+        break;
+    case EV_RUN:
+        if (!toplevel) break;
+        cmb_event_queue_execute();
+        if (!failed && npending() != 0) fail(j, "queue_execute returned with %d events still pending in the model", npending());
+        break;
+    case EV_QUERY:
+        break;
+    }
+}
+
+static void run_body(const int start, const unsigned depth)
+{
+    for (int j = start; j < cur_case->nops && cur_case->ops[j].depth >= depth && !failed; j++) {
+        if (cur_case->ops[j].depth == depth) {
+            do_op(j, depth == 0u);
+            cross_check(j);
+        }
+    }
+}
+
+static void action_common(const unsigned which, void *s, void *o)
+{
+    actions_run++;
+    if (failed) return;
+    const int k = model_next();
+    if (k < 0) { fail(-1, "an action ran although the model has nothing pending"); return; }
+    struct mev *e = &evs[k];
+    const double now = cmb_time();
+    if (e->act != which || e->subj != s || e->obj != o) {
+        fail(-1, "wrong event ran: got act%u(%p,%p), model expects handle %" PRIu64 " act%u(%p,%p) at %a prio %" PRIi64,
+             which, s, o, e->handle, e->act, e->subj, e->obj, e->time, e->prio);
+        return;
+    }
+    if (!(now == e->time)) { fail(-1, "clock %a inside action of event %" PRIu64 " scheduled for %a", now, e->handle, e->time); return; }
+    if (now < prev_clock) { fail(-1, "clock went back from %a to %a", prev_clock, now); return; }
+    prev_clock = now;
+    if (cmb_event_current() != e->handle) {
+        fail(-1, "event_current %" PRIu64 " inside action of event %" PRIu64, cmb_event_current(), e->handle);
+        return;
+    }
+    e->pending = false;
+    e->ran++;
+    model_current = e->handle;
+    cross_check(-1);
+    if (cur_case->ops[e->body_start - 1].op == EV_SCHED && e->body_start < cur_case->nops
+        && cur_case->ops[e->body_start].depth >= e->body_depth) {
+        cls_nested++;
+        run_body(e->body_start, e->body_depth);
+    }
+}
+
+static void act0(void *s, void *o) { action_common(0, s, o); }
+static void act1(void *s, void *o) { action_common(1, s, o); }
+static void act2(void *s, void *o) { action_common(2, s, o); }
+
+int ev_run(const struct ev_case *c, FILE *trace)
+{
+    cmb_logger_flags_off(CMB_LOGGER_INFO | CMB_LOGGER_WARNING);
+    cur_case = c;
+    cur_trace = trace;
+    nevs = 0;
+    failed = false;
+    actions_run = 0;
+    model_current = 0;
+    unique_counter = 0;
+    queue_cap = 8u;
+    prev_clock = c->start;
+    cls_tie_time = cls_tie_tp = cls_nested = cls_growth = cls_multipat = cls_skipped = 0;
+    cls_nested_mut = cls_maxpending = cls_bigprio = cls_inf = 0;
+
+    cmb_event_queue_initialize(c->start);
+    if (!(cmb_time() == c->start)) fail(-1, "clock %a after initialize(%a)", cmb_time(), c->start);
+    cross_check(-1);
+    run_body(0, 0u);
+    /* drain: every event not cancelled or cleared runs exactly once */
+    if (!failed) {
+        cmb_event_queue_execute();
+        if (!failed && npending() != 0) fail(c->nops, "final queue_execute left %d model events pending", npending());
+        if (!failed) cross_check(c->nops);
+    }
+    if (!failed) {
+        int ran_total = 0;
+        for (int k = 0; k < nevs; k++) {
+            ran_total += evs[k].ran;
+            if (evs[k].cancelled && evs[k].ran) fail(c->nops, "cancelled event %" PRIu64 " ran", evs[k].handle);
+            if (!evs[k].cancelled && evs[k].ran != 1) fail(c->nops, "event %" PRIu64 " ran %d times", evs[k].handle, evs[k].ran);
+        }
+        if (ran_total != actions_run) fail(c->nops, "%d action invocations, model accounts for %d", actions_run, ran_total);
+    }
+    if (failed) return CIMX_ORACLE_FAIL;
+    cmb_event_queue_terminate();
+    fprintf(trace, "N ops=%d events=%d ran=%d skipped=%u tie_time=%u tie_tp=%u nested=%u nested_mut=%u growth=%u multipat=%u maxpending=%u bigprio=%u inf=%u\n",
+            c->nops, nevs, actions_run, cls_skipped, cls_tie_time, cls_tie_tp, cls_nested, cls_nested_mut,
+            cls_growth, cls_multipat, cls_maxpending, cls_bigprio, cls_inf);
+    return CIMX_OK;
+}
+
+/* ---------------------------------------------------------------- text -- */
+
+static const char *const op_names[] = { "sched", "cancel", "resched", "reprio", "pfind", "pcount",
+                                        "pcancel", "clear", "exec", "run", "query" };
+
+static void print_val(FILE *f, const unsigned v)
+{
+    if (v == EV_WILD) fprintf(f, " *");
+    else if (v == EV_UNIQUE) fprintf(f, " u");
+    else fprintf(f, " %u", v);
+}
+
+void ev_print_case(const struct ev_case *c, FILE *f)
+{
+    fprintf(f, "mode event\nstart %a\n", c->start);
+    for (int n = 0; n < c->nops; n++) {
+        const struct ev_op *o = &c->ops[n];
+        for (unsigned d = 0; d < o->depth; d++) fputc('>', f);
+        if (o->depth) fputc(' ', f);
+        fprintf(f, "%s", op_names[o->op]);
+        switch (o->op) {
+        case EV_SCHED:
+            print_val(f, o->act); print_val(f, o->subj); print_val(f, o->obj);
+            fprintf(f, " %a %" PRIi64, o->dt, o->prio);
+            break;
+        case EV_CANCEL: fprintf(f, " @%u", o->ref); break;
+        case EV_RESCHED: fprintf(f, " @%u %a", o->ref, o->dt); break;
+        case EV_REPRIO: fprintf(f, " @%u %" PRIi64, o->ref, o->prio); break;
+        case EV_PFIND: case EV_PCOUNT: case EV_PCANCEL:
+            print_val(f, o->act); print_val(f, o->subj); print_val(f, o->obj);
+            break;
+        case EV_EXEC: fprintf(f, " %u", o->count); break;
+        default: break;
+        }
+        fputc('\n', f);
+    }
+}
+
+static unsigned parse_val(const char *s)
+{
+    if (strcmp(s, "*") == 0) return EV_WILD;
+    if (strcmp(s, "u") == 0) return EV_UNIQUE;
+    return (unsigned)cimx_u64(s);
+}
+
+int ev_parse(char *text, struct ev_case *c)
+{
+    char *cursor = text, *line, *tok[10];
+    int cap = 0;
+    c->nops = 0; c->ops = NULL; c->start = 0.0;
+    while ((line = cimx_next_line(&cursor)) != NULL) {
+        unsigned depth = 0;
+        while (*line == '>') { depth++; line++; }
+        const int nt = cimx_split(line, tok, 10);
+        if (nt == 0) continue;
+        if (strcmp(tok[0], "start") == 0 && nt >= 2) { c->start = cimx_dbl(tok[1]); continue; }
+        int op = -1;
+        for (int j = 0; j < (int)(sizeof op_names / sizeof op_names[0]); j++) {
+            if (strcmp(tok[0], op_names[j]) == 0) op = j;
+        }
+        if (op < 0) return -1;
+        if (c->nops == cap) {
+            cap = cap ? cap * 2 : 64;
+            c->ops = realloc(c->ops, (size_t)cap * sizeof *c->ops);
+        }
+        struct ev_op *o = &c->ops[c->nops];
+        memset(o, 0, sizeof *o);
+        o->op = (enum ev_opcode)op;
+        /* a body can only hang below a sched op one level up */
+        const unsigned maxdepth = (c->nops > 0) ? c->ops[c->nops - 1].depth
+                                  + ((c->ops[c->nops - 1].op == EV_SCHED) ? 1u : 0u) : 0u;
+        o->depth = (depth > maxdepth) ? maxdepth : depth;
+        c->nops++;
+        switch (o->op) {
+        case EV_SCHED:
+            if (nt < 6) return -1;
+            o->act = parse_val(tok[1]); o->subj = parse_val(tok[2]); o->obj = parse_val(tok[3]);
+            o->dt = cimx_dbl(tok[4]); o->prio = cimx_i64(tok[5]);
+            if (!(o->dt >= 0.0)) return -1;
+            break;
+        case EV_CANCEL:
+            if (nt < 2 || tok[1][0] != '@') return -1;
+            o->ref = (unsigned)cimx_u64(tok[1] + 1);
+            break;
+        case EV_RESCHED:
+            if (nt < 3 || tok[1][0] != '@') return -1;
+            o->ref = (unsigned)cimx_u64(tok[1] + 1);
+            o->dt = cimx_dbl(tok[2]);
+            if (!(o->dt >= 0.0)) return -1;
+            break;
+        case EV_REPRIO:
+            if (nt < 3 || tok[1][0] != '@') return -1;
+            o->ref = (unsigned)cimx_u64(tok[1] + 1);
+            o->prio = cimx_i64(tok[2]);
+            break;
+        case EV_PFIND: case EV_PCOUNT: case EV_PCANCEL:
+            if (nt < 4) return -1;
+            o->act = parse_val(tok[1]); o->subj = parse_val(tok[2]); o->obj = parse_val(tok[3]);
+            if (o->obj == EV_UNIQUE) o->obj = EV_WILD;
+            break;
+        case EV_EXEC:
+            if (nt < 2) return -1;
+            o->count = (unsigned)cimx_u64(tok[1]);
+            break;
+        default:
+            break;
+        }
+    }
+    return 0;
+}
+
+int mode_event(char *text, FILE *trace)
+{
+    struct ev_case c;
+    if (ev_parse(text, &c) != 0) {
+        fprintf(trace, "F parse error\n");
+        return CIMX_PARSE_ERROR;
+    }
+    const int r = ev_run(&c, trace);
+    free(c.ops);
+    return r;
+}
